@@ -5,17 +5,41 @@
 
 package fiber
 
+// ---------------------------------------------------------------------------------------------
+// C10: forwarding headers only from trusted proxies
+// ---------------------------------------------------------------------------------------------
+
 //@ fn trusted(c ref, ep int) bool
 //@ fn scheme(c ref, ep int) string
+//@ fn host(c ref, ep int) string
+//@ fn reqHeader(c ref, key string, ep int) string
+//@ fn parseAddrHost(s string) string
+
+//@ func App.getString assumed pure
+//@   ensures result == str(arg0)
+
+//@ func (*DefaultCtx).Get assumed pure
+//@   defines result == reqHeader(c, key, epoch)
+
+//@ func parseAddr assumed pure
+//@   defines result0 == parseAddrHost(raw)
 
 //@ func (*DefaultCtx).IsProxyTrusted
 //@   props C10
 //@   pure
 //@   defines result == trusted(c, epoch)
-//@   ensures no-trustproxy: !c.app.config.TrustProxy ==> result
+//@   loop 1
+//@     invariant none-so-far: forall(k, 0, rangeindex + 1, !ipnetContains(c.app.config.TrustProxyConfig.ranges[k], ip, epoch))
+//@   ensures iff-configured-set: result <==> (!c.app.config.TrustProxy ||
+//@ ..   (c.app.config.TrustProxyConfig.Loopback && ipIsLoopback(remoteIP(c.fasthttp, epoch))) ||
+//@ ..   (c.app.config.TrustProxyConfig.Private && ipIsPrivate(remoteIP(c.fasthttp, epoch))) ||
+//@ ..   (c.app.config.TrustProxyConfig.LinkLocal && ipIsLinkLocal(remoteIP(c.fasthttp, epoch))) ||
+//@ ..   indom(c.app.config.TrustProxyConfig.ips, ipString(remoteIP(c.fasthttp, epoch))) ||
+//@ ..   exists(k, 0, len(c.app.config.TrustProxyConfig.ranges), ipnetContains(c.app.config.TrustProxyConfig.ranges[k], remoteIP(c.fasthttp, epoch), epoch)))
 
 //@ func (*DefaultCtx).Scheme
 //@   props C10
+//@   pure
 //@   defines result == scheme(c, epoch)
 //@   ensures tls-https: isTLS(c.fasthttp, epoch) ==> result == "https"
 //@   ensures untrusted-http: !isTLS(c.fasthttp, epoch) && !trusted(c, epoch) ==> result == "http"
@@ -23,3 +47,33 @@ package fiber
 //@ func (*DefaultCtx).Secure
 //@   props C10
 //@   ensures iff-scheme-https: result <==> scheme(c, epoch) == "https"
+
+//@ func (*DefaultCtx).Host
+//@   props C10
+//@   pure
+//@   defines result == host(c, epoch)
+//@   ensures untrusted-uri-host: !trusted(c, epoch) ==> result == uriHost(reqURI(c.fasthttp.Request, epoch), epoch)
+
+//@ func (*DefaultCtx).Hostname
+//@   props C10
+//@   ensures from-host: result == parseAddrHost(host(c, epoch))
+
+//@ func (*DefaultCtx).IP
+//@   props C10
+//@   ensures untrusted-remote-ip: !trusted(c, epoch) || len(c.app.config.ProxyHeader) == 0 ==> result == ipString(remoteIP(c.fasthttp, epoch))
+
+//@ func (*DefaultCtx).extractIPFromHeader
+//@   props C10 C07
+//@   pure
+//@   loop 2
+//@     invariant j-in-range: j <= len(headerValue)
+//@   loop 3
+//@     invariant i-le-j: i <= j
+//@   ensures valid-ip: c.app.config.EnableIPValidation ==> isIPv4(result) || isIPv6(result) || result == ipString(remoteIP(c.fasthttp, epoch))
+
+//@ func (*DefaultCtx).BaseURL
+//@   props C10
+//@   requires cache-wf: c.baseURI == "" || c.baseURI == scheme(c, epoch) + "://" + host(c, epoch)
+//@   modifies c.baseURI
+//@   ensures scheme-host: result == scheme(c, epoch) + "://" + host(c, epoch)
+//@   ensures cache-wf: c.baseURI == scheme(c, epoch) + "://" + host(c, epoch)
